@@ -84,6 +84,13 @@ def standard(fmt=True):
     install_plugins(fmt=fmt)
     stub_tzd()
     stub_range_message()
+    import os
+    if os.environ.get("VERIF_FLOATPIN", "1") == "1":     # (VERIF_FLOATPIN=0: CrossHair's own real-number model of int -> float)
+        from symx.plugins import floatpin
+        if not floatpin._installed:
+            floatpin.install()
+            STUBS_IN_FORCE.append("model:floatpin - a symbolic int that meets floating point is pinned to a solver-chosen adversarial value "
+                                  "(rest of that branch UNKNOWN); never reached by integer-only code")
 
 
 class Hang(Exception):
